@@ -369,12 +369,11 @@ def hot_stage(ctx):
                               case, kind="property")
         elif not same:
             if mk == "PANIC" and bk in ("OK", "ERR"):
-                # the recorded defect no longer shows (it was repaired): the model is stale, not the code
-                ctx.notes.append("finding_not_reproduced: model predicts PANIC, brush answers %s on %s" % (b[:40], h))
+                # the recorded defect no longer shows on this input (it was repaired): the property holds on
+                # brush here; DESIGN.md section 4: pass, noted in the evidence (the model should be brought up to date)
+                if len(ctx.notes) < 20:
+                    ctx.notes.append("finding_not_reproduced: model predicts PANIC, brush answers %s on %s" % (b[:40], h))
                 ctx.bucket("finding_not_reproduced")
-                if nviol < 25:
-                    nviol += 1
-                    ctx.violation("checked model predicts a panic that brush no longer shows (model out of date)", case, kind="correspondence")
             elif nviol < 25:
                 nviol += 1
                 ctx.violation("checked model and brush disagree on a hot-spot input", case, kind="correspondence")
@@ -394,7 +393,8 @@ def hot_stage(ctx):
             else:
                 ctx.violation("brush never finishes (%s) on a brace sequence" % r["how"], case)
         else:
-            ctx.violation("checked model predicts a hang that brush does not show (model out of date)", case, kind="correspondence")
+            ctx.notes.append("finding_not_reproduced: model predicts HANG, brush ends with %s on %s" % (r["how"], word))
+            ctx.bucket("finding_not_reproduced")
     if runnable:
         for i in (0, len(runnable) // 2, len(runnable) - 1):
             (k, h, d), m = runnable[i]
@@ -808,11 +808,11 @@ class Gen:
         if x < 0.86:
             return "{ %s; }%s" % (c(), r.choice(["", " " + self.redir(d - 1), " | cat", " &\nwait"]))
         if x < 0.91:
-            # f may call g, g calls no function: generated scripts never recurse
+            # generated scripts never recurse: inside a function body nested definitions become plain groups
+            # and calls of f/g become `:`
             name = r.choice(["f", "g"])
-            body = re.sub(r"\bg\b" if name == "f" else r"\b[fg]\b", ":", c())
-            if name == "f":
-                body = re.sub(r"\bf\b", ":", body)
+            body = re.sub(r"\b[fg]\(\) \{", "{", c())
+            body = re.sub(r"\b[fg]\b", ":", body)
             return "%s() { %s; }; %s %s" % (name, body, name, self.word(d - 1))
         if x < 0.94:
             return "! %s" % c()
@@ -977,6 +977,9 @@ def explore_binary(ctx):
                 if o["how"] == "timeout":
                     ctx.bucket("binary_both_shells_time_out")
                     continue
+        if r["how"] == "signal" and r["rc"] == -13 and re.search(r"exec \{\w+\}>&-", s):
+            ctx.known_or_violation("exec_varfd_close_then_sigpipe", "brush is killed by SIGPIPE", case)
+            continue
         if nviol < 25:
             nviol += 1
             ctx.violation("brush does not end in a status: %s (rc %s)" % (r["how"], r["rc"]), case)
